@@ -354,5 +354,307 @@ Proof.
   - apply preserved_mig.
 Qed.
 
+(* ---------------------------------------------------------------------------------------- *)
+(* arbitrary sets of committed aligned ranges                                                 *)
+(* ---------------------------------------------------------------------------------------- *)
+
+(* the database in which exactly the aligned ranges j with c j = true were ingested;
+   off = block number of the head of l *)
+Fixpoint mstf (c : nat -> bool) (off : nat) (l : list block) : list block :=
+  match l with
+  | [] => []
+  | b :: r => (if c (off / batch_size) then mig b else b) :: mstf c (S off) r
+  end.
+
+Lemma bs_ne : batch_size <> 0.
+Proof. rewrite bs_eq. lia. Qed.
+
+Lemma div_lt : forall i j, i < j * batch_size -> i / batch_size < j.
+Proof.
+  intros i j H. apply Nat.div_lt_upper_bound; [apply bs_ne|]. lia.
+Qed.
+
+Lemma div_ge : forall i j, j * batch_size <= i -> j <= i / batch_size.
+Proof.
+  intros i j H. apply Nat.div_le_lower_bound; [apply bs_ne|]. lia.
+Qed.
+
+Lemma div_in : forall i j, j * batch_size <= i -> i < j * batch_size + batch_size ->
+  i / batch_size = j.
+Proof.
+  intros i j H1 H2. pose proof (div_ge i j H1). pose proof (div_lt i (S j)). lia.
+Qed.
+
+Lemma mstf_split : forall n c off l,
+  mstf c off l = mstf c off (firstn n l) ++ mstf c (off + n) (skipn n l).
+Proof.
+  induction n; intros c off l.
+  - cbn [firstn skipn mstf app]. rewrite Nat.add_0_r. reflexivity.
+  - destruct l as [|b l]; [reflexivity|].
+    cbn [firstn skipn mstf app]. rewrite (IHn c (S off) l).
+    replace (S off + n) with (off + S n) by lia. reflexivity.
+Qed.
+
+Lemma firstn_mstf : forall n c off l, firstn n (mstf c off l) = mstf c off (firstn n l).
+Proof.
+  induction n; intros c off l; [reflexivity|].
+  destruct l as [|b l]; [reflexivity|].
+  cbn [firstn mstf]. rewrite IHn. reflexivity.
+Qed.
+
+Lemma skipn_mstf : forall n c off l, skipn n (mstf c off l) = mstf c (off + n) (skipn n l).
+Proof.
+  induction n; intros c off l.
+  - cbn [skipn]. rewrite Nat.add_0_r. reflexivity.
+  - destruct l as [|b l]; [reflexivity|].
+    cbn [skipn mstf]. rewrite IHn. replace (S off + n) with (off + S n) by lia. reflexivity.
+Qed.
+
+Lemma mstf_length : forall c l off, length (mstf c off l) = length l.
+Proof.
+  induction l as [|b l IH]; intros off; [reflexivity|].
+  cbn [mstf length]. rewrite IH. reflexivity.
+Qed.
+
+Lemma mstf_ext : forall c c' l off,
+  (forall i, off <= i -> i < off + length l -> c (i / batch_size) = c' (i / batch_size)) ->
+  mstf c off l = mstf c' off l.
+Proof.
+  induction l as [|b l IH]; intros off H; [reflexivity|].
+  cbn [mstf]. cbn [length] in H. rewrite (H off) by lia.
+  rewrite (IH (S off)) by (intros i H1 H2; apply H; lia). reflexivity.
+Qed.
+
+Lemma mstf_true : forall c l off,
+  (forall i, off <= i -> i < off + length l -> c (i / batch_size) = true) ->
+  mstf c off l = map mig l.
+Proof.
+  induction l as [|b l IH]; intros off H; [reflexivity|].
+  cbn [mstf map]. cbn [length] in H. rewrite (H off) by lia.
+  rewrite (IH (S off)) by (intros i H1 H2; apply H; lia). reflexivity.
+Qed.
+
+Lemma mstf_false : forall c l off,
+  (forall i, off <= i -> i < off + length l -> c (i / batch_size) = false) ->
+  mstf c off l = l.
+Proof.
+  induction l as [|b l IH]; intros off H; [reflexivity|].
+  cbn [mstf]. cbn [length] in H. rewrite (H off) by lia.
+  rewrite (IH (S off)) by (intros i H1 H2; apply H; lia). reflexivity.
+Qed.
+
+Lemma ingest_mig : forall b, ingest_block (mig b) = Some (mig b).
+Proof. reflexivity. Qed.
+
+Lemma map_opt_mstf : forall c l off, (forall b, In b l -> block_wf_old b = true) ->
+  map_opt ingest_block (mstf c off l) = Some (map mig l).
+Proof.
+  induction l as [|a l IH]; intros off H; [reflexivity|].
+  cbn [mstf map_opt map].
+  rewrite (IH (S off)) by (intros b Hb; apply H; right; exact Hb).
+  destruct (c (off / batch_size)).
+  - rewrite ingest_mig. reflexivity.
+  - rewrite ingest_wf by (apply H; left; reflexivity). reflexivity.
+Qed.
+
+Lemma ingest_mst : forall db c j, wf_old db = true ->
+  ingest_range (mstf c 0 db) (j * batch_size)
+  = Some (mstf (fun i => Nat.eqb i j || c i) 0 db).
+Proof.
+  intros db c j W. unfold ingest_range.
+  rewrite skipn_mstf, firstn_mstf.
+  rewrite map_opt_mstf.
+  2:{ intros b Hb. apply (wf_in db W). eapply in_skipn. eapply in_firstn. exact Hb. }
+  rewrite firstn_mstf, skipn_mstf. cbn [Nat.add].
+  set (c' := fun i => Nat.eqb i j || c i).
+  rewrite (mstf_split (j * batch_size) c' 0 db). cbn [Nat.add].
+  rewrite (mstf_split batch_size c' (j * batch_size) (skipn (j * batch_size) db)).
+  rewrite <- skipn_add.
+  rewrite (mstf_ext c' c (firstn (j * batch_size) db) 0).
+  2:{ intros i _ Hi. pose proof (firstn_le_length (j * batch_size) db).
+      pose proof (div_lt i j). unfold c'.
+      replace (Nat.eqb (i / batch_size) j) with false; [reflexivity|].
+      symmetry. apply Nat.eqb_neq. lia. }
+  rewrite (mstf_true c' (firstn batch_size (skipn (j * batch_size) db)) (j * batch_size)).
+  2:{ intros i H1 H2.
+      pose proof (firstn_le_length batch_size (skipn (j * batch_size) db)).
+      unfold c'. rewrite (div_in i j) by lia. rewrite Nat.eqb_refl. reflexivity. }
+  rewrite (mstf_ext c' c (skipn (j * batch_size + batch_size) db) (j * batch_size + batch_size)).
+  2:{ intros i H1 _. pose proof (div_ge i (S j)). unfold c'.
+      replace (Nat.eqb (i / batch_size) j) with false; [reflexivity|].
+      symmetry. apply Nat.eqb_neq. lia. }
+  reflexivity.
+Qed.
+
+Lemma mst_all : forall db c j, length db <= j * batch_size ->
+  (forall i, i < j -> c i = true) -> mstf c 0 db = map mig db.
+Proof.
+  intros db c j Hl Hc. apply mstf_true. intros i _ Hi. apply Hc. apply div_lt. lia.
+Qed.
+
+Lemma first_false : forall (c : nat -> bool) n,
+  (forall i, i < n -> c i = true) \/
+  (exists k, k < n /\ c k = false /\ forall i, i < k -> c i = true).
+Proof.
+  intros c. induction n as [|n IH].
+  - left. intros i Hi. lia.
+  - destruct IH as [H|[k [Hk [Hf Hb]]]].
+    + destruct (c n) eqn:E.
+      * left. intros i Hi. destruct (Nat.eq_dec i n) as [->|Hn]; [exact E|apply H; lia].
+      * right. exists n. split; [lia|]. split; [exact E|exact H].
+    + right. exists k. split; [lia|]. split; [exact Hf|exact Hb].
+Qed.
+
+Lemma existsb_find_index_len : forall A (p : A -> bool) l,
+  existsb p l = true -> exists i, find_index p l = Some i /\ i < length l.
+Proof.
+  induction l as [|a l IH]; intros H; [discriminate|].
+  cbn [existsb find_index length] in *.
+  destruct (p a).
+  - exists 0. split; [reflexivity|lia].
+  - cbn [orb] in H. apply IH in H. destruct H as [i [Hi Hl]].
+    exists (S i). rewrite Hi. split; [reflexivity|lia].
+Qed.
+
+Lemma find_index_app_some : forall A (p : A -> bool) l1 l2 i,
+  find_index p l1 = Some i -> find_index p (l1 ++ l2) = Some i.
+Proof.
+  induction l1 as [|a l1 IH]; intros l2 i H; [discriminate|].
+  cbn [app find_index] in *. destruct (p a); [exact H|].
+  destruct (find_index p l1) as [i'|] eqn:E; [|discriminate].
+  rewrite (IH l2 i' eq_refl). exact H.
+Qed.
+
+Lemma get_first_mst : forall db c k,
+  wf_old db = true -> no_empty_range db = true -> k * batch_size < length db ->
+  c k = false -> (forall i, i < k -> c i = true) ->
+  get_first (mstf c 0 db) = FSome (k * batch_size).
+Proof.
+  intros db c k W N Hl Hk Hb.
+  assert (Hkf : k < S (length db)) by (rewrite bs_eq in Hl; lia).
+  pose proof (ner_exists k _ db N Hkf Hl) as E.
+  apply existsb_find_index_len in E. destruct E as [i [Hi Hlt]].
+  pose proof (firstn_le_length batch_size (skipn (k * batch_size) db)) as Hlen.
+  assert (Wk : forall b, In b (firstn batch_size (skipn (k * batch_size) db)) ->
+                         block_wf_old b = true).
+  { intros b Hb'. apply (wf_in db W). eapply in_skipn. eapply in_firstn. exact Hb'. }
+  assert (Hotx : find_index (fun b => nonempty (b_otx b))
+                   (firstn batch_size (skipn (k * batch_size) db)) = Some i).
+  { rewrite (find_index_ext _ _ (fun b => N.ltb 0 (b_count b)))
+      by (intros x Hx; apply wf_otx, Wk, Hx). exact Hi. }
+  assert (Horc : find_index (fun b => nonempty (b_orc b))
+                   (firstn batch_size (skipn (k * batch_size) db)) = Some i).
+  { rewrite (find_index_ext _ _ (fun b => N.ltb 0 (b_count b)))
+      by (intros x Hx; apply wf_orc, Wk, Hx). exact Hi. }
+  rewrite (mstf_split (k * batch_size) c 0 db). cbn [Nat.add].
+  rewrite (mstf_true c (firstn (k * batch_size) db) 0).
+  2:{ intros j _ Hj. pose proof (firstn_le_length (k * batch_size) db).
+      apply Hb. apply div_lt. lia. }
+  rewrite (mstf_split batch_size c (k * batch_size) (skipn (k * batch_size) db)).
+  rewrite (mstf_false c (firstn batch_size (skipn (k * batch_size) db)) (k * batch_size)).
+  2:{ intros j H1 H2. rewrite (div_in j k) by lia. exact Hk. }
+  unfold get_first.
+  rewrite !find_index_stt by reflexivity.
+  rewrite (find_index_app_some _ _ _ _ _ Hotx), (find_index_app_some _ _ _ _ _ Horc).
+  cbn [option_map]. rewrite Nat.eqb_refl.
+  rewrite firstn_length_le by lia.
+  f_equal.
+  rewrite (Nat.add_comm (k * batch_size) i), Nat.mod_add by apply bs_ne.
+  rewrite Nat.mod_small by lia. lia.
+Qed.
+
+Lemma bt_head_mig : forall db, bt_head (map mig db) = (map mig db, Done).
+Proof.
+  intros db. rewrite <- (stt_all db (length db)) at 1 by lia. apply bt_head_done. lia.
+Qed.
+
+Lemma mstf_ne : forall db c, db <> [] -> mstf c 0 db <> [].
+Proof.
+  intros db c H E. apply H. apply length_zero_iff_nil.
+  rewrite <- (mstf_length c db 0), E. reflexivity.
+Qed.
+
+Lemma sweep_mst : forall db, db <> [] -> wf_old db = true ->
+  forall fuel j c, length db - j * batch_size < fuel -> (forall i, i < j -> c i = true) ->
+  bt_complete fuel (mstf c 0 db) (Some (Cursor (j * batch_size))) = Some (map mig db).
+Proof.
+  intros db Hne W. induction fuel; intros j c Hf Hc; [lia|].
+  cbn [bt_complete]. rewrite bt_step_ne by (apply mstf_ne; exact Hne).
+  rewrite mstf_length.
+  destruct (Nat.ltb (j * batch_size) (length db)) eqn:E.
+  - rewrite ingest_mst by exact W.
+    replace (j * batch_size + batch_size) with (S j * batch_size) by lia.
+    apply IHfuel.
+    + apply Nat.ltb_lt in E. rewrite bs_eq in *. lia.
+    + intros i Hi. destruct (Nat.eq_dec i j) as [->|Hn].
+      * rewrite Nat.eqb_refl. reflexivity.
+      * rewrite Hc by lia. apply orb_true_r.
+  - apply Nat.ltb_ge in E. rewrite (mst_all db c j E Hc).
+    rewrite bt_head_mig. reflexivity.
+Qed.
+
+Lemma any_run : forall db c tok,
+  db <> [] -> wf_old db = true -> no_empty_range db = true ->
+  (tok = None \/ tok = Some Rescan) ->
+  bt_complete (length db + 3) (mstf c 0 db) tok = Some (map mig db).
+Proof.
+  intros db c tok Hne W N Ht.
+  replace (length db + 3) with (S (length db + 2)) by lia.
+  assert (Hh : bt_step (mstf c 0 db) tok false = bt_head (mstf c 0 db)).
+  { rewrite bt_step_ne by (apply mstf_ne; exact Hne). destruct Ht; subst; reflexivity. }
+  cbn [bt_complete]. rewrite Hh. clear Hh.
+  assert (Hall : forall j, length db <= j * batch_size -> (forall i, i < j -> c i = true) ->
+                 match bt_head (mstf c 0 db) with
+                 | (db', Done) => Some db'
+                 | (db', Suspended t) => bt_complete (length db + 2) db' (Some t)
+                 | _ => None
+                 end = Some (map mig db)).
+  { intros j Hj Hc. rewrite (mst_all db c j Hj Hc). rewrite bt_head_mig. reflexivity. }
+  destruct (first_false c (length db)) as [H|[k [Hk [Hf Hb]]]].
+  - apply (Hall (length db)); [rewrite bs_eq; lia|exact H].
+  - destruct (le_lt_dec (length db) (k * batch_size)) as [Hge|Hlt].
+    + apply (Hall k); assumption.
+    + unfold bt_head. rewrite (get_first_mst db c k) by assumption.
+      rewrite ingest_mst by exact W.
+      replace (k * batch_size + batch_size) with (S k * batch_size) by lia.
+      apply sweep_mst; [exact Hne|exact W|lia|].
+      intros i Hi. destruct (Nat.eq_dec i k) as [->|Hn].
+      * rewrite Nat.eqb_refl. reflexivity.
+      * rewrite Hb by lia. apply orb_true_r.
+Qed.
+
+Lemma commit_mst : forall db, wf_old db = true -> forall js c dbc,
+  commit_ranges (mstf c 0 db) (map (fun j => j * batch_size) js) = Some dbc ->
+  exists c', dbc = mstf c' 0 db.
+Proof.
+  intros db W. induction js as [|j js IH]; intros c dbc H.
+  - cbn [map commit_ranges] in H. injection H as <-. exists c. reflexivity.
+  - cbn [map commit_ranges] in H. rewrite ingest_mst in H by exact W.
+    apply IH in H. exact H.
+Qed.
+
+(* resumption from ANY crash state between batch commits: an arbitrary set (list, any order,
+   repetitions allowed) of aligned ranges already committed — not necessarily a prefix. The completed
+   database is the very database the uninterrupted run produces, and it serves every block's
+   original content. *)
+Lemma bt_resume_any_committed_lemma : forall (db : btdb) (js : list nat) (dbc : btdb) (tok : option bttok),
+  db <> [] -> wf_old db = true -> no_empty_range db = true ->
+  commit_ranges db (map (fun j => j * batch_size) js) = Some dbc ->
+  (tok = None \/ tok = Some Rescan) ->
+  exists db', bt_complete (length db + 3) dbc tok = Some db'
+    /\ bt_complete (length db + 3) db None = Some db'
+    /\ preserved (map acc_old db) db' = true.
+Proof.
+  intros db js dbc tok Hne W N Hc Ht.
+  rewrite <- (mstf_false (fun _ => false) db 0) in Hc at 1 by reflexivity.
+  apply (commit_mst db W) in Hc. destruct Hc as [c' ->].
+  exists (map mig db). split; [|split].
+  - apply any_run; assumption.
+  - pose proof (head_run db 0 None Hne W N (or_introl eq_refl)) as H.
+    cbn [Nat.mul] in H. rewrite stt_0 in H. exact H.
+  - apply preserved_mig.
+Qed.
+
 Print Assumptions bt_data_preserved_lemma.
 Print Assumptions bt_resume_prefix_lemma.
+Print Assumptions bt_resume_any_committed_lemma.
